@@ -3,7 +3,7 @@ import json
 import os
 import shutil
 
-from .. import common, pipeline, tla
+from .. import canary, common, pipeline, tla
 from .. import d_construct as D
 
 
@@ -35,6 +35,7 @@ def main(tier):
         with open(scnp, "w") as f:
             json.dump(hs, f)
         res = tla.judge("J_Construction", events, chunk=4000, jobs=common.jobs(), env={"VERIF_SCN": scnp})
+        pipeline.canaries(rep, "J_Construction", events[::max(1, len(events) // 40)], canary.construct, env={"VERIF_SCN": scnp}, want=16)
         rep.mark("judge")
         for gi, clause, detail in res["bad"]:
             e = events[gi]
